@@ -8,7 +8,7 @@
 set -u
 HERE="$(cd "$(dirname "$0")" && pwd)"
 export GOFLAGS=-mod=mod GOPROXY=off GOSUMDB=off GOTOOLCHAIN=local GOWORK=off
-BIN="$HERE/bin/verif"
+BIN="$HERE/bin/verif.$$"   # per-invocation binary: concurrent invocations never overwrite each other's executable
 export VERIF_DIR="$HERE"
 MODFLAG=""
 if [ -n "${VERIF_REPO:-}" ]; then
@@ -17,12 +17,15 @@ if [ -n "${VERIF_REPO:-}" ]; then
   sed "s|=> /repo|=> $VERIF_REPO|" "$HERE/mc/go.mod" > "$OUT/go.alt.mod"
   cp "$HERE/mc/go.sum" "$OUT/go.alt.sum"
   MODFLAG="-modfile=$OUT/go.alt.mod"
-  BIN="$OUT/verif"
+  BIN="$OUT/verif.$$"
   export VERIF_EVIDENCE_DIR="$OUT" VERIF_MODFILE="$OUT/go.alt.mod"
 fi
 mkdir -p "$HERE/bin" "$HERE/evidence"
 ( cd "$HERE/mc" && go build $MODFLAG -o "$BIN" ./cmd/verif ) || { echo "BUILD-FAILED: harness does not compile against the repository working tree" >&2; exit 2; }
+trap 'rm -f "$BIN"' EXIT
 if [ "${1:-}" = "replay" ]; then
-  exec "$BIN" replay "$2"
+  "$BIN" replay "$2"
+  exit $?
 fi
-exec "$BIN" check "$1" "${2:-${VERIF_TIER:-quick}}"
+"$BIN" check "$1" "${2:-${VERIF_TIER:-quick}}"
+exit $?
